@@ -742,6 +742,36 @@ def _t_import_styles(srcs):
                 tree.body[i] = ast.copy_location(ast.ImportFrom(module=m, names=[ast.alias(name=a, asname=nm) for a, nm in sorted(used[m].items())], level=0), n)
 
 
+def _t_np_constructors(srcs):
+    """np.zeros((a, b)) / ones / empty -> the shape as a list; np.arange(n) -> np.arange(0, n); np.logical_and / logical_or / logical_not on
+    comparisons -> & / | / ~; np.sum(<comparison>) / (<comparison>).sum() -> np.count_nonzero(<comparison>)"""
+    import ast
+    isnp = lambda f, names: isinstance(f, ast.Attribute) and isinstance(f.value, ast.Name) and f.value.id == "np" and f.attr in names
+    boolish = lambda a: isinstance(a, ast.Compare) or (isinstance(a, ast.BinOp) and isinstance(a.op, (ast.BitAnd, ast.BitOr)) and isinstance(a.left, ast.Compare)) or \
+        (isinstance(a, ast.UnaryOp) and isinstance(a.op, ast.Invert))
+
+    class R(ast.NodeTransformer):
+        def visit_Call(self, node):
+            self.generic_visit(node)
+            f = node.func
+            if isnp(f, {"zeros", "ones", "empty"}) and node.args and isinstance(node.args[0], ast.Tuple):
+                node.args[0] = ast.copy_location(ast.List(elts=node.args[0].elts, ctx=ast.Load()), node.args[0])
+            elif isnp(f, {"arange"}) and len(node.args) == 1 and not node.keywords:
+                node.args = [ast.Constant(0), node.args[0]]
+            elif isnp(f, {"logical_and", "logical_or"}) and len(node.args) == 2 and not node.keywords and all(boolish(a) for a in node.args):
+                return ast.copy_location(ast.BinOp(left=node.args[0], op=ast.BitAnd() if f.attr == "logical_and" else ast.BitOr(), right=node.args[1]), node)
+            elif isnp(f, {"logical_not"}) and len(node.args) == 1 and boolish(node.args[0]):
+                return ast.copy_location(ast.UnaryOp(op=ast.Invert(), operand=node.args[0]), node)
+            elif isnp(f, {"sum"}) and len(node.args) == 1 and not node.keywords and isinstance(node.args[0], ast.Compare):
+                node.func = ast.copy_location(ast.Attribute(value=ast.Name("np", ast.Load()), attr="count_nonzero", ctx=ast.Load()), f)
+            elif isinstance(f, ast.Attribute) and f.attr == "sum" and not node.args and not node.keywords and isinstance(f.value, ast.Compare):
+                return ast.copy_location(ast.Call(func=ast.Attribute(value=ast.Name("np", ast.Load()), attr="count_nonzero", ctx=ast.Load()), args=[f.value], keywords=[]), node)
+            return node
+    for pth, tree in srcs.items():
+        if "import numpy as np" in ast.unparse(tree)[:6000]:
+            R().visit(tree)
+
+
 def _t_np_operators(srcs):
     """operators spelled as numpy functions where that is the same for every operand the code can see: a @ b -> np.matmul(a, b), np.eye(n) -> np.identity(n)"""
     import ast
@@ -1025,7 +1055,7 @@ def _t_accept_lists(srcs):
                         n.body[k:k] = ast.parse("if not isinstance(%s, np.ndarray):\n    %s = np.array(%s)\n" % (a.arg, a.arg, a.arg)).body
 
 
-TREE_TRANSFORMS = {"@coerce_params": _t_coerce_params, "@accept_lists": _t_accept_lists, "@early_exit": _t_early_exit, "@numpy_alias": _t_numpy_alias, "@kwargs_calls": _t_kwargs_calls, "@strip_docs_annotate": _t_strip_docs_annotate, "@logging": _t_logging, "@traced": _t_traced, "@kwonly": _t_kwonly, "@extra_param": _t_extra_param, "@try_reraise": _t_try_reraise, "@np_functions": _t_np_functions, "@small_idioms": _t_small_idioms, "@flip_comparisons": _t_flip_comparisons, "@else_after_exit": _t_else_after_exit, "@comp_to_loop": _t_comp_to_loop, "@logic_spellings": _t_logic_spellings, "@local_aliases": _t_local_aliases, "@method_spellings": _t_method_spellings, "@statement_spellings": _t_statement_spellings, "@loop_spellings": _t_loop_spellings, "@import_styles": _t_import_styles, "@np_operators": _t_np_operators, "@private_module": _t_private_module, "@swap_branches": _t_swap_branches, "@name_conditions": _t_name_conditions, "@ternary_to_if": _t_ternary_to_if,
+TREE_TRANSFORMS = {"@coerce_params": _t_coerce_params, "@accept_lists": _t_accept_lists, "@early_exit": _t_early_exit, "@numpy_alias": _t_numpy_alias, "@kwargs_calls": _t_kwargs_calls, "@strip_docs_annotate": _t_strip_docs_annotate, "@logging": _t_logging, "@traced": _t_traced, "@kwonly": _t_kwonly, "@extra_param": _t_extra_param, "@try_reraise": _t_try_reraise, "@np_functions": _t_np_functions, "@small_idioms": _t_small_idioms, "@flip_comparisons": _t_flip_comparisons, "@else_after_exit": _t_else_after_exit, "@comp_to_loop": _t_comp_to_loop, "@logic_spellings": _t_logic_spellings, "@local_aliases": _t_local_aliases, "@method_spellings": _t_method_spellings, "@statement_spellings": _t_statement_spellings, "@loop_spellings": _t_loop_spellings, "@import_styles": _t_import_styles, "@np_constructors": _t_np_constructors, "@np_operators": _t_np_operators, "@private_module": _t_private_module, "@swap_branches": _t_swap_branches, "@name_conditions": _t_name_conditions, "@ternary_to_if": _t_ternary_to_if,
                    "@shim": _t_shim}
 
 
